@@ -97,7 +97,7 @@ class WF(common.SpaceMixin, Obligation):
             if vals2 is not None else None
         return f, f2
 
-    def _judge(self, step, out, surv, unl, claim, obs):
+    def _judge(self, step, out, surv, unl, claim, obs, renamed=None):
         probs = common.wf_problems(out)
         claim('%s:well-formed' % step, z3.BoolVal(not probs))
         bad = []
@@ -105,6 +105,10 @@ class WF(common.SpaceMixin, Obligation):
             if d in out.dimensions and \
                     bool(out.dimensions[d].isunlimited()) != bool(unl[d]):
                 bad.append(d)
+        for new, old in (renamed or {}).items():
+            if new not in out.dimensions or \
+                    bool(out.dimensions[new].isunlimited()) != bool(unl[old]):
+                bad.append(new)
         claim('%s:unlimited-kept' % step, z3.BoolVal(not bad))
         obs[step + ':dims'] = dict((k, len(v))
                                    for k, v in out.dimensions.items())
@@ -123,7 +127,8 @@ class WF(common.SpaceMixin, Obligation):
                  repr(ex)[:200])
             return
         self._judge('step1', out, self.op1.surviving(self.spec, a1), unl,
-                    claim, obs)
+                    claim, obs, getattr(self.op1, 'renamed', lambda *x: None)(
+                        self.spec, a1))
         if self.op2 is None or common.wf_problems(out):
             return
         mid = spec_of(out)
@@ -150,7 +155,8 @@ class WF(common.SpaceMixin, Obligation):
                  repr(ex)[:200])
             return
         self._judge('step2', out2, self.op2.surviving(mid, a2), unl2, claim,
-                    obs)
+                    obs, getattr(self.op2, 'renamed', lambda *x: None)(
+                        mid, a2))
 
     def sym(self, ctx, h):
         sp = self.space()
